@@ -32,7 +32,8 @@ def match_cases3d(draw, tier="quick", ties=False, contest=False):
     n = len(sc["targets"])
     radii = None
     if mode in DIST_MODES and draw(st.booleans()):
-        radii = draw(GEN.per_label(n, st.sampled_from([0.4, 1.0, 2.5, 6.0, 50.0])))
+        # (a radius of exactly 0 is a legitimate, if extreme, setting: nothing is closer than 0, so nothing is matchable)
+        radii = draw(GEN.per_label(n, st.sampled_from([0.4, 1.0, 2.5, 6.0, 50.0, 0.0])))
     sc.update(
         {
             "dim": 3,
@@ -70,7 +71,7 @@ def match_cases2d(draw, tier="quick", ties=False):
     n = len(sc["targets"])
     radii = None
     if mode == "CENTERDISTANCE" and draw(st.integers(0, 2)) > 0:
-        radii = draw(GEN.per_label(n, st.sampled_from([3.0, 20.0, 100.0, 500.0])))
+        radii = draw(GEN.per_label(n, st.sampled_from([3.0, 20.0, 100.0, 500.0, 0.0])))
     sc.update(
         {
             "dim": 2,
